@@ -166,6 +166,9 @@ class ExecutorSchedules(Contract):
     def instances(self, tier):
         out = []
         for prog in D.PROGRAMS:
+            if prog == "sizeparam":
+                continue   # (parametric sizes: the fake part programs and
+                #            input set-up here are for static shapes)
             for size in (2, 3):
                 if tier != "thorough" and size == 3 and prog not in (
                         "halo2", "ring", "forwarding", "multisend"):
